@@ -160,7 +160,8 @@ def make_config_dict(spec):
     if s.get("ub") is not None:
         cfg["variables"]["upper_bounds"] = s["ub"]
     if s.get("mask") is not None:
-        cfg["variables"]["mask"] = s["mask"]
+        # s["mask_as_integers"]: the same flags written as 0/1 integers
+        cfg["variables"]["mask"] = [int(b) for b in s["mask"]] if s.get("mask_as_integers") else s["mask"]
     if s.get("types") is not None:
         cfg["variables"]["types"] = s["types"]
     if s.get("rmin") is not None:
@@ -399,3 +400,12 @@ def pmin_of(spec):
     """The perturbation threshold in force: the configured value, at most the number of perturbations; all of them when not configured."""
     P = int(spec["P"])
     return P if spec.get("pmin") is None else min(int(spec["pmin"]), P)
+
+
+def scratch_file(name):
+    """A file name inside the scratch directory of the running check (removed by the parent when the check ends)."""
+    import os  # noqa: PLC0415
+    import tempfile  # noqa: PLC0415
+
+    d = os.environ.get("VERIF_SCRATCH") or ("/dev/shm" if os.path.isdir("/dev/shm") else tempfile.gettempdir())
+    return os.path.join(d, f"{name}_{os.getpid()}")
